@@ -89,9 +89,9 @@ func init() {
 	register(rulePanicParse, ruleParseResult)
 	addProp(&PropSpec{
 		ID:          "C04",
-		Rules:       []string{"R-PANIC-PARSE", "R-PARSE-RESULT"},
+		Rules:       []string{"R-PANIC-PARSE", "R-PARSE-RESULT", "R-NILNODE", "R-REGEXFLAGS"},
 		Explanation: "Totality of Parse as a shape of the code: every construct that can raise a panic explicitly below Parse/Scan/Unmarshal* is enumerated over the call graph and must be contained by a recovering root that returns the documented error.",
-		Decided:     []string{"R-PANIC-PARSE: explicit panics, Must* calls and comma-less type assertions below the parse roots are contained by a deferred recover in parser.Parse that reports ErrParse"},
+		Decided:     []string{"R-PANIC-PARSE: explicit panics, Must* calls and comma-less type assertions below the parse roots are contained by a deferred recover in parser.Parse that reports ErrParse", "R-PARSE-RESULT: (tree, nil) or (nil, sentinel-wrapped error) at every level; MustParse panics exactly on the error branch", "R-NILNODE: no action publishes a nil node without recording an error", "R-REGEXFLAGS: every like_regex accepted at parse time compiles at execution time (flag translation for all 32 flag sets; same pattern and flags validated, stored, compiled)"},
 		NotDecided:  []string{"termination of the lexer loops", "the goyacc runtime (trusted)", "size limits of regexp compilation"},
 		Assumptions: []string{"values of the ast enum types are declared constants only"},
 	})
@@ -162,5 +162,28 @@ func init() {
 			"R-PREDLOOP: lax existential vs strict universal decision table", "R-REGEXFLAGS: i,s,m,q translation and rejection of x", "R-TOWER: int64/float64/json.Number handled together"},
 		NotDecided:  []string{"numeric comparison across representations beyond 2^53 (D19: int64 vs float64 goes through float64)", "transitivity over concrete values", "string byte order (delegated to strings.Compare)", "datetime instants (types.*.Compare)"},
 		Assumptions: []string{"item values have one of the 13 documented dynamic types", "Go's regexp inline flags (?i)(?s)(?m) mean FoldCase, DotNL, ¬OneLine"},
+	})
+}
+
+func init() {
+	addProp(&PropSpec{
+		ID:          "C03",
+		Rules:       []string{"R-GRAMSYNC", "R-PREC", "R-KEYWORDS", "R-VOCAB", "R-LEXRESET", "R-PRED", "R-NILNODE"},
+		Explanation: "'Every spelling parses to the tree the grammar assigns it' has a large structural part: the compiled parser must be the grammar (goyacc is re-run and the result compared as syntax trees), the grammar must be conflict-free so that the precedence declarations decide nesting, the keyword table must agree with the grammar's tokens and key names, keywords that the printer emits must lead back to the same constants, the token buffer must never be dropped without an error, and the predicate flag must be set by exactly one production. These are agreements between sibling tables (lexer, grammar, generated parser, printer), decided from the sources.",
+		Decided: []string{"R-GRAMSYNC: grammar.go = goyacc(grammar.y); 0 conflicts", "R-PREC: declared precedence/associativity ↔ operator constants (via the actions)",
+			"R-KEYWORDS: one lower-case spelling per keyword token, true/false/null case-sensitive, every keyword usable as key name", "R-VOCAB: printed keyword → lexer → token → production → same constant",
+			"R-LEXRESET: token text is discarded only after an error (end of input does not change a token's value)", "R-PRED: the predicate flag and IsPredicate/PgIndexOperator", "R-NILNODE: no action leaves a node-typed $$ unset silently"},
+		NotDecided:  []string{"values of literals (escape arithmetic, number bases, underscores)", "punctuation operators in the hand-written scanner (scanOperator)", "whitespace and comments", "associativity results for concrete inputs"},
+		Assumptions: []string{"goyacc (x/tools v0.29.0) is the generator the repository uses (go:generate line)"},
+		Trusted:     append(append([]string{}, baseTrusted...), "goyacc's LALR construction and its parser skeleton"),
+	})
+	addProp(&PropSpec{
+		ID:          "C02",
+		Rules:       []string{"R-ESC", "R-PAREN", "R-PREC", "R-VOCAB", "R-MARSHAL", "R-PARSE-RESULT"},
+		Explanation: "Necessary conditions of Parse(p.String()) = p that are visible in the shape of the printer and the lexer: every escape the printer can emit is decoded to the same code point; printed keywords lead back to the same constants; the printer's priorities equal the grammar's precedence levels; a node that can only carry an accessor chain inside parentheses prints those parentheses; the three marshalling forms are exactly String() and the unmarshalling forms hand their whole input to Parse.",
+		Decided: []string{"R-ESC: printer escape table ⊆ lexer escape table with equal meaning", "R-PAREN: parenthesisation before a trailing accessor chain (today: 6 known findings, D16)", "R-PREC: priority table = grammar levels",
+			"R-VOCAB: keyword vocabulary", "R-MARSHAL / R-PARSE-RESULT: Marshal* = String(), Unmarshal*/Scan = Parse of the whole input"},
+		NotDecided:  []string{"normalisation of numeric literals (D17: 4.0 prints as 4 and re-parses as an integer)", "equality of trees and of query results after the round trip (value level)", "String as a fixed point on concrete inputs"},
+		Assumptions: []string{"strconv.IsPrint and the fmt verbs used by the quoting function behave as documented"},
 	})
 }
